@@ -14,7 +14,7 @@ use crate::proto::{Ctx, attrs};
 pub fn meta() -> Meta {
     Meta {
         level: "exploration",
-        rule: "exhaustive for n=3, all 6 orders, BDD and BCDD: exists/forall/unique for all 256 f x all 8 variable subsets; restrict for all 256 f x all 27 literal cubes (also ZBDD); apply_exists/forall/unique for all 8 operators x all 8 subsets x pairs (quick: 64x64 closed subset, thorough: all 65536); substitute for all 256 f x all 13^3 replacement vectors (each variable unlisted or replaced by one of 12 functions), vector-major with a fresh Subst per vector and f-major with persistent Subst objects used alternately with gc in between, each answer repeated and compared. thorough adds n=4 unary quantifier/restrict block. Non-trivial: f non-constant and the variable set / cube / substitution non-empty.",
+        rule: "exhaustive for n=3, all 6 orders, BDD and BCDD: exists/forall/unique for all 256 f x all 8 variable subsets; restrict for all 256 f x all 27 literal cubes (also ZBDD); memoisation histories of length two: every ordered pair of distinct requests among the 26 restrictions and 21 quantifications, first request issued for all 256 f on an emptied cache, then the second one checked for all 256 f; apply_exists/forall/unique for all 8 operators x all 8 subsets x pairs (quick: 64x64 closed subset, thorough: all 65536); substitute for all 256 f x all 13^3 replacement vectors (each variable unlisted or replaced by one of 12 functions), vector-major with a fresh Subst per vector and f-major with persistent Subst objects used alternately with gc in between, each answer repeated and compared. thorough adds n=4 unary quantifier/restrict block. Non-trivial: f non-constant and the variable set / cube / substitution non-empty.",
         assumptions: vec![
             "ZBDD implements neither BooleanFunctionQuant nor FunctionSubst; only restrict is checked for it".into(),
             "random instances over 5..8 variables not enumerated".into(),
@@ -32,6 +32,9 @@ pub fn shards(tier: &str) -> Vec<String> {
             for tc in ["t1", "t2d2"] {
                 v.push(format!("{k}:{o}:quant:{tc}"));
                 v.push(format!("{k}:{o}:restrict:{tc}"));
+                if tc == "t1" {
+                    v.push(format!("{k}:{o}:pairs:{tc}"));
+                }
                 for op in BINOPS {
                     if tc == "t1" || tier == "thorough" || op == BinOp::And || op == BinOp::ImpStrict {
                         v.push(format!("{k}:{o}:applyq-{}:{tc}", op.name()));
@@ -45,6 +48,9 @@ pub fn shards(tier: &str) -> Vec<String> {
     for o in model::perms(3) {
         for tc in ["t1", "t2d2"] {
             v.push(format!("zbdd:{}:restrict:{tc}", model::order_str(&o)));
+            if tc == "t1" {
+                v.push(format!("zbdd:{}:pairs:{tc}", model::order_str(&o)));
+            }
         }
     }
     if tier == "thorough" {
@@ -153,6 +159,7 @@ pub fn run(ctx: &mut Ctx) {
     match p[0] {
         "bdd" => run_k::<Bdd>(ctx, &order, p[2], tc),
         "bcdd" => run_k::<Bcdd>(ctx, &order, p[2], tc),
+        "zbdd" if p[2] == "pairs" => run_pairs::<Zbdd>(ctx, &order, tc, &|_, _, _| unreachable!(), false),
         "zbdd" => run_restrict::<Zbdd>(ctx, &order, tc),
         _ => panic!(),
     }
@@ -221,6 +228,7 @@ fn run_k<K: QuantKind>(ctx: &mut Ctx, order: &[u32], part: &str, tc: ThreadCfg) 
             ctx.sample(|| case::<K>(n, &order, "exists", &[0xe8], json!({"vars": 5}), model::exists(0xe8, 5, n), "-"));
         }),
         "restrict" => run_restrict::<K>(ctx, &order, tc),
+        "pairs" => run_pairs::<K>(ctx, &order, tc, &|w, f, c| K::q(w, f, c), true),
         p if p.starts_with("applyq-") => {
             let op = BinOp::from_name(&p[7..]).unwrap();
             let tabs: Vec<Tab> = if ctx.thorough() { (0..256).collect() } else { model::subset3() };
@@ -357,5 +365,64 @@ fn run_n4<K: QuantKind>(ctx: &mut Ctx, order: &[u32], part: u64) {
                 mref.with_manager_shared(|m| m.gc());
             }
         }
+    });
+}
+
+/// Memoisation histories of length two: the requests are the 27 restrictions and (BDD/BCDD) the
+/// 3 x 8 quantifications. For every ordered pair (r1, r2) of distinct requests: the apply cache is
+/// emptied (gc), r1 is issued for all 256 functions, then r2 is issued for all 256 functions and
+/// checked against the model; no answer to r2 may depend on what r1 left in the cache.
+fn run_pairs<K: BoolKind>(ctx: &mut Ctx, order: &[u32], tc: ThreadCfg, q: &dyn Fn(u8, &K::F, &K::F) -> AllocResult<K::F>, with_quant: bool) {
+    let n = 3u32;
+    let order = order.to_vec();
+    #[derive(Clone, Copy, PartialEq)]
+    enum Req {
+        Restrict(u32, u32),
+        Quant(u8, u32),
+    }
+    let mut reqs = vec![];
+    for pos in 0..8u32 {
+        for neg in 0..8u32 {
+            if pos & neg == 0 && (pos | neg) != 0 {
+                reqs.push(Req::Restrict(pos, neg));
+            }
+        }
+    }
+    if with_quant {
+        for w in 0..3u8 {
+            for vars in 1..8u32 {
+                reqs.push(Req::Quant(w, vars));
+            }
+        }
+    }
+    ctx.group("request pairs", |ctx| {
+        let (mref, fns) = all_functions::<K>(n, &order, 1 << 14, tc);
+        let issue = |r: Req, f: &K::F| match r {
+            Req::Restrict(pos, neg) => f.restrict(&fns[model::cube_tab(pos, neg, n) as usize]),
+            Req::Quant(w, vars) => q(w, f, &fns[model::cube_tab(vars, 0, n) as usize]),
+        };
+        for &r1 in &reqs {
+            for &r2 in &reqs {
+                if r1 == r2 {
+                    continue;
+                }
+                mref.with_manager_shared(|m| m.gc());
+                for f in fns.iter() {
+                    let _ = issue(r1, f);
+                }
+                let first = match r1 {
+                    Req::Restrict(pos, neg) => json!({"restrict": {"pos": pos, "neg": neg}}),
+                    Req::Quant(w, vars) => json!({QN[w as usize]: vars}),
+                };
+                for (t, f) in fns.iter().enumerate() {
+                    let t = t as Tab;
+                    match r2 {
+                        Req::Restrict(pos, neg) => check::<K>(ctx, n, &order, "restrict", &[t], json!({"pos": pos, "neg": neg, "after": first}), model::restrict(t, pos, neg, n), issue(r2, f), nc(t, n)),
+                        Req::Quant(w, vars) => check::<K>(ctx, n, &order, QN[w as usize], &[t], json!({"vars": vars, "after": first}), mq(w, t, vars, n), issue(r2, f), nc(t, n)),
+                    }
+                }
+            }
+        }
+        ctx.sample(|| case::<K>(n, &order, "restrict", &[0xe8], json!({"pos": 4, "neg": 0, "after": {"restrict": {"pos": 5, "neg": 0}}}), model::restrict(0xe8, 4, 0, n), "-"));
     });
 }
